@@ -118,7 +118,7 @@ PROPS = {
         "assumptions": ["single embedded server on loopback (no clustering)", "on history-1 buckets JetStream itself coalesces rapid successive changes: there the watch clause is judged as in-order duplicate-free subsequence ending in the final state (full clause on history-64 buckets)"]},
 
     "C20": {"level": "exploration", "race": True, "trigger": ["c20.scenarios"], "jobs": 8,
-        "batches": [rt("rt", 32, 400, chunk=2, timeout=1200)],
+        "batches": [rt("rt", 48, 400, chunk=2, timeout=1200)],
         "min": {"quick": {"c20.calls.Status": 2000, "c20.calls.ValidateToken": 2000, "c20.calls.Start": 200, "c20.calls.Stop": 50, "c20.calls.conn.D": 30, "c20.terms": 50}},
         "rule": "engine RT: the real library in real time (no bubble) built with -race, 2-4 instances with H = 20-50 ms against the reference store with real sleeps, 1.5 s per scenario; hammer goroutines per instance: 2 pollers (IsLeader/LeaderID/Token/Status), validator (ValidateToken / ValidateTokenOrDemote), callback re-registration, 2 lifecycle goroutines (Stop / StopWithContext / Start), a connection-notification dispatcher invoking the handlers the monitor registered (also stale ones), plus an outside party rewriting/deleting the record; oracle: GORACE halt_on_error=0 log files, every WARNING: DATA RACE block normalised to the pair of innermost library functions; distinct = scenarios (each a different configuration and schedule)",
         "assumptions": ["the race detector only sees races between accesses that actually execute concurrently in these runs", "harness monitors are race-free (a report without library frames makes the run inconclusive)"]},
